@@ -35,7 +35,8 @@ P = {
     "C05": dict(theorems=["Properties/C05.v"],
                 runs=[dict(cmd="c05", quick=80, thorough=8000, shards_thorough=8)], vm_k=4),
     "C06": dict(theorems=["Properties/C06.v"],
-                runs=[dict(cmd="c06", quick=80, thorough=8000, shards_thorough=8)], vm_k=4),
+                runs=[dict(cmd="c06", quick=80, thorough=8000, shards_thorough=8),
+                      dict(cmd="c06node", quick=10, thorough=1500, shards_thorough=8, model=False)], vm_k=4),
     "C21": dict(theorems=["Properties/C21.v"],
                 runs=[dict(cmd="c21", quick=80, thorough=8000, shards_thorough=8)], vm_k=4),
     "C22": dict(theorems=["Properties/C22.v"],
@@ -54,6 +55,8 @@ P = {
                 runs=[dict(cmd="c24", quick=300, thorough=20000, shards_thorough=4)], vm_k=40),
     "C07": dict(theorems=["Properties/C07.v"],
                 runs=[dict(cmd="c07", quick=10, thorough=1500, shards_thorough=8, model=False)]),
+    "C08": dict(theorems=["Properties/C08.v"],
+                runs=[dict(cmd="c08", quick=6, thorough=40, shards_thorough=6, model=False, extra="procs=4", timeout=3000)], vm_k=0),
     "C09": dict(theorems=["Properties/C09.v"],
                 runs=[dict(cmd="appdb", quick=300, thorough=20000, shards_thorough=4),
                       dict(cmd="c09", quick=16, thorough=600, shards_thorough=8, model=False)]),
@@ -184,6 +187,23 @@ META = {
     "C07": dict(text="PARTIAL BY NATURE. Proved: every explicit crash site (panic / log.Panic / log.Fatal / os.Exit, ~200 sites) of the consensus packages, regenerated from the Go source on every run, is covered by the reviewed classification table (a new or moved site breaks the proof gate); the sites carried by the models are unreachable (negative balance at commit, reward 'Negative remainder', swap ErrorK/liquidity, payout and power divisions); the modelled executor and the decoders are total. Exercised, not proved: runtime faults outside explicit sites - scripted crash scenarios from earlier findings, generated histories with malformed transactions, absences, byzantine evidence and block-time walks, byte-level fuzz into DeliverTx and check-mode RunTx; every ABCI call under recover().",
                 note=TB + "Classes of the table: EnvError (storage/encoding errors: trusted environment), Legacy (executors and swap v1 unreachable at V330), NotConsensus, Proved, GuardedByCheck (transaction-level check precedes; validated by the harness only), ByDesign (halt: os.Exit). Nil dereferences, slice bounds, divisions by zero in unmodelled code, OOM and stack depth are outside what a theorem here can exhibit. Found and repaired with this check: f518499, 20acd05, c0a2cc6, 11ddaa1, e60f1c0.",
                 technique="Coq proof (inventory coverage by computation, no-panic theorems of the models) + regenerated crash-site inventory + scenario/history/fuzz execution under recover()"),
+    "C08": dict(
+        text="Theorems over arbitrary entry/key types: collect-then-sort by an injective key, commutative folds, "
+             "unique find/exists and per-entry updates of distinct records are independent of the iteration order "
+             "(with counter-witnesses when the side condition fails), and every program built from these loops and "
+             "deterministic code gives the same result for ANY two permutation oracles (C08_order_independent). "
+             "Tie: the translator lists every range over a map (52 sites, 43 packages) and every go statement in the "
+             "packages the consensus engine links, classifies each from its shape plus hash-pinned reviews, fails "
+             "closed (Unknown/OrderDependent break C08_sites_classified). Differential: generated histories "
+             "(std/crowd/ties/expiry) re-executed in separate OS processes with GOMAXPROCS in {1,4,16}, GOGC in "
+             "{off,10,100}, with/without background snapshots; app hash, every ResponseDeliverTx, EndBlock and stored "
+             "events compared per block.",
+        note=TB + "PARTIAL: link between each Go loop and its class is the translator's shape check + review, not a "
+             "mechanised semantics of Go; order inside IAVL/tm-db/tmjson and scheduling of the snapshot goroutine are "
+             "validated by the multi-process runs only. IAVL root hash depends on insertion order, so per-entry "
+             "independence is never used for tree writes.",
+        technique="Coq proof (Permutation, insertion sort, fold commutation, oracle-parameterised denotation) + regenerated "
+                  "classified inventory + multi-process differential"),
     "C09": dict(text="Theorem (appdb layer, complete): for every history of blocks (arbitrary programs over the appdb API) with any restarts, every getter (height, hash, validators, block times, versions, emission, price) returns what a never-restarted node returns; tied to the source by a translator (Commit write order, Save* guards, dirty-flag assignments) and by running random programs against the real AppDB. Node level: generated histories executed straight and with restarts on the real node, comparing responses, app hashes, emission, exports.",
                 note=TB + "PARTIAL: caches of the state modules (order book, candidates, ...) are not modelled; for them only the node-level restart differential speaks.",
                 technique="Coq proof (invariant: caches coherent with disk after Commit) + regenerated code shape + differential (AppDB programs, node restarts)"),
